@@ -1210,3 +1210,23 @@ Proof.
   pose proof (proj1 (forallb_forall _ _) H1 full Hf) as H2. cbn beta in H2.
   exact (proj1 (forallb_forall _ _) H2 cs (all_lists_complete _ _ _ Hl Ha)).
 Qed.
+
+(* ---- bounded exhaustive check of the connection-side C13 oracle ---- *)
+Definition c13_alphabet : list cmd :=
+  [KConnect; KRevoke; KRelease 0; KRelease 1; KRequest 0; KRequest 1; KEnd 0].
+
+Definition c13_conn_sweep (len : nat) : bool :=
+  forallb (fun n => forallb (fun cs =>
+     oracle_c13_conn cs (totals_cmds true true n (sim_init n) cs)) (all_lists c13_alphabet len)) [1; 2].
+
+Lemma c13_conn_sweep_4 : c13_conn_sweep 4 = true.
+Proof. vm_compute. reflexivity. Qed.
+
+Lemma oracle_c13_conn_sound_upto_l n cs :
+  In n [1; 2] -> length cs <= 4 -> Forall (fun c => In c c13_alphabet) cs ->
+  oracle_c13_conn cs (totals_cmds true true n (sim_init n) cs) = true.
+Proof.
+  intros Hn Hl Ha. pose proof c13_conn_sweep_4 as H. unfold c13_conn_sweep in H.
+  pose proof (proj1 (forallb_forall _ _) H n Hn) as H1. cbn beta in H1.
+  exact (proj1 (forallb_forall _ _) H1 cs (all_lists_complete _ _ _ Hl Ha)).
+Qed.
